@@ -184,6 +184,7 @@ Inductive event :=
 | EAsk (h : Z)                                  (* a request sent to the peer while handling the message *)
 | EPayload (o : oid) (op : nop)                 (* vinegar.dump / traceback formatting applied repr() / dir() to an object the exception carries *)
 | ECtx (o : oid) (op : nop)                     (* traceback formatting of a chained (caught) exception: dir(o) for an AttributeError on o, str() of what it carries *)
+| EGlobalRead (o : oid)                         (* netref.class_factory read attributes (__class__, __name__) of the object a peer-declared dotted name is bound to in an imported module *)
 | ECls (m : text)                               (* netref.class_factory ran a module-level __getattr__ for a peer-declared name: module m imported *)
 | EVin (e : Vinegar.effect).                    (* what vinegar.load did: import attempt / cls.__new__ / (never) constructor *)
 
@@ -195,7 +196,9 @@ Record config := {
   c_rflags : Vinegar.rflags;    (* import_custom_exceptions, instantiate_custom_exceptions, instantiate_oldstyle_exceptions *)
   c_prop_kbd : bool;            (* propagate_KeyboardInterrupt_locally *)
   c_prop_sysexit : bool;        (* propagate_SystemExit_locally *)
-  c_cls_mode : Vinegar.lookup_mode }.   (* generated fact: how netref.class_factory reads a peer-named class out of an imported module *)
+  c_cls_mode : Vinegar.lookup_mode;     (* generated fact: how netref.class_factory reads a peer-named class out of an imported module *)
+  c_cls_reads : bool }.         (* generated fact: class_factory reads attributes of whatever object it found there (hasattr(_class, '__class__'),
+                                   _class.__class__) instead of accepting it by a test on type(_class) only *)
 
 Record sem (W : Type) := {
   s_root : oid;
@@ -208,9 +211,10 @@ Record sem (W : Type) := {
   s_op : W -> nop -> oid -> list lval -> W * res lval;
   s_val : nop -> pyval -> list lval -> res lval;                (* the same operations on a plain value: Python's own semantics *)
   s_builtin_names : list text;                                  (* keys of netref.builtin_classes_cache *)
+  s_globals : list (text * oid);                                (* dotted names under which service objects are bound as globals of imported modules *)
   s_env : Vinegar.env }.                                        (* builtins namespace / sys.modules as vinegar.load sees them *)
 Arguments s_root {W}. Arguments s_key {W}. Arguments s_type {W}. Arguments s_callable {W}. Arguments s_view {W}. Arguments s_attr {W}.
-Arguments s_hook {W}. Arguments s_op {W}. Arguments s_val {W}. Arguments s_builtin_names {W}. Arguments s_env {W}.
+Arguments s_hook {W}. Arguments s_op {W}. Arguments s_val {W}. Arguments s_builtin_names {W}. Arguments s_globals {W}. Arguments s_env {W}.
 
 Inductive panswer := PReply (pkg : pyval) | PExc (payload : pyval) | PSilent.
 
@@ -327,7 +331,7 @@ Definition default_config : config :=
   {| c_attr := {| sw := default_switches; exposed_prefix := txt "exposed_"; safe_attrs := map txt default_safe |};
      c_guard := true; c_pickle := false;
      c_rflags := {| Vinegar.import_custom := false; Vinegar.inst_custom := false; Vinegar.inst_oldstyle := false |};
-     c_prop_kbd := true; c_prop_sysexit := false; c_cls_mode := Vinegar.LkDict |}.
+     c_prop_kbd := true; c_prop_sysexit := false; c_cls_mode := Vinegar.LkDict; c_cls_reads := false |}.
 
 (* ------------------------------------------------------------------ the interpreter *)
 Section Interp.
@@ -542,7 +546,11 @@ Definition class_imports (name : text) : list text :=
       end
   | None => []
   end.
-Definition class_walk (name : text) : M unit := emit_all (map ECls (class_imports name)).
+Fixpoint assoc_txt {A} (k : text) (l : list (text * A)) : option A :=
+  match l with [] => None | (k', v) :: r => if text_eqb k k' then Some v else assoc_txt k r end.
+Definition class_global (name : text) : list event :=
+  if c_cls_reads C then match assoc_txt name (s_globals S) with Some o => [EGlobalRead o] | None => [] end else [].
+Definition class_walk (name : text) : M unit := emit_all (map ECls (class_imports name) ++ class_global name).
 Definition is_zero (v : pyval) : bool := match num_of v with Some 0%Z => true | _ => false end.
 
 (* tuple(self._unbox(item) for item in value): a StopIteration raised inside the generator expression comes out as RuntimeError (PEP 479) *)
@@ -1075,7 +1083,7 @@ Definition exc_env (names : list text) (mods : list (text * Vinegar.ns)) : Vineg
   {| Vinegar.builtins_ns := map (fun n => (n, Vinegar.AExc (Vinegar.Builtin n) true)) names;
      Vinegar.modules := mods; Vinegar.importable := []; Vinegar.local_major := [53%N] |}.
 
-Definition world_sem (w : world) (excs : list text) (mods : list (text * Vinegar.ns)) : sem unit :=
+Definition world_sem (w : world) (excs : list text) (mods : list (text * Vinegar.ns)) (globs : list (text * oid)) : sem unit :=
   {| s_root := 0%N;
      s_key := fun o => od_key (desc w o);
      s_type := fun o => od_type (desc w o);
@@ -1120,6 +1128,7 @@ Definition world_sem (w : world) (excs : list text) (mods : list (text * Vinegar
                 | _ => RUnm
                 end;
      s_builtin_names := w_builtin w;
+     s_globals := globs;
      s_env := exc_env excs mods |}.
 
 (* ------------------------------------------------------------------ harness interface *)
@@ -1190,6 +1199,7 @@ Definition sx_of_event (e : event) : sx :=
   | EAsk h => SL [SS "ask"; SI h]
   | EPayload o op => SL [SS "payload"; sN o; SS (nop_name op)]
   | ECtx o op => SL [SS "payload"; sN o; SS (nop_name op)]
+  | EGlobalRead o => SL [SS "globalread"; sN o]
   | ECls m => SL [SS "clsimport"; sx_of_text m]
   | EVin v => SL [SS "vinegar"; Vinegar.sx_of_effect v]
   end.
@@ -1206,7 +1216,10 @@ Definition sx_of_table (t : table) : sx := SL (map (fun e => match e with (k, o,
 Definition config_with (m : Vinegar.lookup_mode) : config :=
   {| c_attr := c_attr default_config; c_guard := c_guard default_config; c_pickle := c_pickle default_config;
      c_rflags := c_rflags default_config; c_prop_kbd := c_prop_kbd default_config; c_prop_sysexit := c_prop_sysexit default_config;
-     c_cls_mode := m |}.
+     c_cls_mode := m; c_cls_reads := c_cls_reads default_config |}.
+Definition with_cls_reads (c : config) (b : bool) : config :=
+  {| c_attr := c_attr c; c_guard := c_guard c; c_pickle := c_pickle c; c_rflags := c_rflags c; c_prop_kbd := c_prop_kbd c;
+     c_prop_sysexit := c_prop_sysexit c; c_cls_mode := c_cls_mode c; c_cls_reads := b |}.
 Fixpoint session (H : list (string * hdef)) (C : config) (S : sem unit) (s : hst unit) (msgs : list sx) : list sx :=
   match msgs with
   | [] => []
@@ -1219,12 +1232,13 @@ Fixpoint session (H : list (string * hdef)) (C : config) (S : sem unit) (s : hst
   end.
 Definition run_hostile (x : sx) : sx :=
   match x with
-  | SL [cmd; SL [mode; cmpg; ctxall]; objs; builtin; excs; mods; msgs] =>
+  | SL [cmd; SL [mode; cmpg; ctxall; reads; globs]; objs; builtin; excs; mods; msgs] =>
       if is_tag "session" cmd then
         let w := {| w_objs := map desc_of_sx (sx_l objs); w_builtin := map text_of_sx (sx_l builtin) |} in
         let g := match cmpg with SL [SI 1%Z; SL names] => Some (map (fun n => string_of_list_byte (sx_b n)) names) | _ => None end in
-        SL (session (handlers_of g (sx_bool ctxall)) (config_with (Vinegar.mode_of_sx mode))
-                    (world_sem w (map text_of_sx (sx_l excs)) (Vinegar.mods_of_sx mods)) (init tt) (sx_l msgs))
+        let gl := map (fun e => match e with SL [n; o] => (text_of_sx n, sx_n o) | _ => ([], 0%N) end) (sx_l globs) in
+        SL (session (handlers_of g (sx_bool ctxall)) (with_cls_reads (config_with (Vinegar.mode_of_sx mode)) (sx_bool reads))
+                    (world_sem w (map text_of_sx (sx_l excs)) (Vinegar.mods_of_sx mods) gl) (init tt) (sx_l msgs))
       else bad_input
   | _ => bad_input
   end.
